@@ -5,7 +5,7 @@ from collections import Counter
 
 from .build import VERIF
 from .panics import sites_in
-from .intervals import discharge
+from .intervals import discharge, discharge_in_contexts
 from .engine import site_of
 
 TABLE = os.path.join(VERIF, "tables", "panic_sites.json")
@@ -47,6 +47,13 @@ def check_region(cx, region, section, entries, label, allow_table=True):
             ok, why = discharge(s)
         except Exception as e:  # analysis crash: not proved
             ok, why = False, "analysis error %r" % (e,)
+        if not ok:
+            try:
+                ok2, why2 = discharge_in_contexts(s, region)
+            except Exception as e:
+                ok2, why2 = False, "analysis error %r" % (e,)
+            if ok2:
+                ok, why = True, why2
         if ok:
             auto += 1
         else:
@@ -88,6 +95,10 @@ def dump_candidates(cx_prog, region, entries):
     for did, blocks in sorted(region.items()):
         for s in sites_in(prog.by_did[did], blocks):
             ok, why = discharge(s)
+            if not ok:
+                ok2, why2 = discharge_in_contexts(s, region)
+                if ok2:
+                    ok = True
             if not ok:
                 rest.setdefault(s.key(), []).append((s, why))
     return rest
